@@ -195,6 +195,49 @@ class History(Part):
                 ctx.cls("flood-cp")
 
 
+class LongStrings(Part):
+    name = "long-strings"
+    rule = ("long strings (65 characters to 64Ki, lengths around 64/128/256/512/1024/4096/8192/65536) assembled from 1-3 repeated units - words, single / double / "
+            "leading / trailing spaces, sentence gaps, wide and zero-width characters, ASCII control characters that Text keeps (ESC, NUL, SOH), tabs - measured with "
+            "cell_len (twice), resized with set_cell_size to widths around their own, chopped with chop_cells; non-trivial = longer than 512 characters with a run of "
+            "spaces, a control character or a non-narrow character")
+    budget = {"quick": (8, 250), "thorough": (16, 4000)}
+
+    def strategy(self, tier):
+        unit = st.sampled_from(["a", "ab ", "word ", "a  b", ".  Next", "   ", " lead", "trail ", "\x1b[31m", "\x1b", "\x00", "\x01x", "\t", chars.WIDE[0], chars.WIDE[1] + " ", "x" + chars.ZERO[0],
+                                "\u3000", "\xa0", "e\u0301", "~", "\x7f"])
+        length = st.one_of(st.sampled_from([64, 128, 256, 512, 1024, 4096, 8192]).flatmap(lambda n: st.integers(n - 2, n + 3)), st.integers(65, 700), st.sampled_from([20000, 65536, 65537]))
+        return st.builds(lambda units, n, lead, trail, d: {"units": units, "len": n, "lead": lead, "trail": trail, "delta": d}, st.lists(unit, min_size=1, max_size=3), length,
+                         st.sampled_from(["", "", " ", "    "]), st.sampled_from(["", "", " ", "  "]), st.integers(-5, 5))
+
+    def check(self, spec, ctx):
+        from rich import cells as RC
+
+        body = "".join(spec["units"])
+        s = spec["lead"] + (body * (spec["len"] // len(body) + 1))[:spec["len"]] + spec["trail"]
+        want = OC.width(s)
+        for i in (1, 2):
+            got = sut(RC.cell_len, s)
+            if got != want:
+                ctx.violation("history", "C13/long/cell_len", "cell_len of a %d-character string made of %r (lead %r, trail %r) = %r, the table sum is %r (query %d)" % (
+                    len(s), spec["units"], spec["lead"], spec["trail"], got, want, i))
+                return
+        n = max(0, want + spec["delta"])
+        out = sut(RC.set_cell_size, s, n)
+        if OC.width(out) != n or not (out.rstrip(" ") == "" or s.startswith(out.rstrip(" ")) or out.startswith(s)):
+            ctx.violation("set_cell_size", "C13/long/set", "set_cell_size(<%d characters of %r>, %d) is %d cells wide / not a prefix plus spaces: %r..." % (len(s), spec["units"], n, OC.width(out), out[-40:]))
+            return
+        if len(s) <= 5000:
+            w = max(2, min(200, 40 + spec["delta"] * 7))
+            pieces = sut(RC.chop_cells, s, w)
+            if "".join(pieces) != s or any(OC.width(p) > w for p in pieces):
+                ctx.violation("chop_cells", "C13/long/chop", "chop_cells(<%d characters of %r>, %d): pieces do not concatenate to the string or do not fit" % (len(s), spec["units"], w))
+                return
+        if len(s) > 512 and ("  " in s or any(OC.cw(c) != 1 for c in s)):
+            ctx.nontrivial = True
+        ctx.cls("len>512" if len(s) > 512 else "len<=512")
+
+
 # --------------------------------------------------------------------------------------------- (c) (d)
 class Resize(Part):
     name = "resize"
@@ -480,4 +523,4 @@ class Shaping(Part):
                 ctx.nontrivial = True
 
 
-PARTS = [CodePoints(), History(), Resize(), Shaping()]
+PARTS = [CodePoints(), History(), Resize(), Shaping(), LongStrings()]
